@@ -155,7 +155,16 @@ impl Report {
                     self.extra.insert(k, json!(a + b));
                 }
                 _ => {
-                    self.extra.entry(k).or_insert(v);
+                    // "max_*" keys keep the maximum, everything else the first value
+                    let cur = self.extra.get(&k).and_then(|x| x.as_f64());
+                    match (cur, v.as_f64()) {
+                        (Some(a), Some(b)) if k.starts_with("max") => {
+                            self.extra.insert(k, json!(a.max(b)));
+                        }
+                        _ => {
+                            self.extra.entry(k).or_insert(v);
+                        }
+                    }
                 }
             }
         }
